@@ -20,8 +20,10 @@ PROP = {
                    "backend_bbolt_cases / backend_sqlite_cases and the `be=` component of the case signatures say which ran); the Postgres "
                    "and etcd kvdb backends are not exercised (no server available offline; Postgres shares kvdb/sqlbase with sqlite, its "
                    "server-side transaction semantics are not covered). Update-log equality after reload is a diagnostic (restoreStateLogs "
-                   "normalises heights), the verdict-bearing counterpart is behavioural (continue-after-restart); held on the executions "
-                   "counted in evidence."),
+                   "normalises heights), the verdict-bearing counterpart is behavioural (continue-after-restart); in half of the cases a "
+                   "second, never refreshed OpenChannel instance per party (what funding manager / chain watcher hold) writes channel "
+                   "markers between actions and the reload fork is judged right after it (counters foreign_marker_writes, "
+                   "foreign_writes_on_really_stale_instance); held on the executions counted in evidence."),
     "design_ref": "DESIGN.md §2 E1/E2, §3 C02",
     "rule": ("case = C01-style schedule + PRNG restarts (4-11 % per action, 1/3 of them mid-handler) + forks every 1/2/4 actions, run on one "
              "kvdb backend (bbolt or sqlite); non-trivial = >=1 HTLC irrevocably committed and >=1 real restart, not constraint-terminated; "
